@@ -184,7 +184,7 @@ def parse_op(s):
         return (k, parse_atom(w[1]), parse_atom(w[2]))
     if k in ("di", "po", "sd1"):
         return (k, parse_atom(w[1]))
-    if k in ("up", "um", "ug", "io", "iom"):
+    if k in ("up", "um", "ug", "io", "iom") or k in SHAPED_OPS:
         return (k, parse_pairs(w[1]))
     if k in ("pi", "cl"):
         return (k,)
@@ -193,6 +193,85 @@ def parse_op(s):
 
 class Self:
     """Marker: the operation returned the receiver itself."""
+
+
+# ---- argument shapes of update / |= / the constructor that the builtin dict accepts (malformed stream) ----
+# The builtin decides "mapping or iterable of pairs" by `hasattr(arg, 'keys')` and then reads a mapping
+# through keys() + __getitem__ only.
+
+class DuckMap:
+    """keys / items / __getitem__ / __iter__ / __len__, not a registered collections.abc.Mapping"""
+
+    def __init__(self, d):
+        self._d = d
+
+    def keys(self):
+        return self._d.keys()
+
+    def items(self):
+        return self._d.items()
+
+    def __getitem__(self, k):
+        return self._d[k]
+
+    def __iter__(self):
+        return iter(self._d)
+
+    def __len__(self):
+        return len(self._d)
+
+
+class KeysOnlyMap:
+    """the minimum the builtin dict needs of a mapping: keys() and __getitem__"""
+
+    def __init__(self, d):
+        self._d = d
+
+    def keys(self):
+        return list(self._d)
+
+    def __getitem__(self, k):
+        return self._d[k]
+
+
+def shaped(shape, pairs):
+    """The argument object for a list of pairs; returns (object, the pairs the builtin dict reads from it)."""
+    import collections.abc
+    if shape == "D":        # duck-typed mapping
+        d = dict(pairs)
+        return DuckMap(d), list(d.items())
+    if shape == "K":        # keys() + __getitem__ only
+        d = dict(pairs)
+        return KeysOnlyMap(d), list(d.items())
+    if shape == "S":        # a real Mapping subclass that is not a dict
+        d = dict(pairs)
+
+        class MapSub(collections.abc.Mapping):
+            def __getitem__(self, k):
+                return d[k]
+
+            def __iter__(self):
+                return iter(d)
+
+            def __len__(self):
+                return len(d)
+        return MapSub(), list(d.items())
+    if shape == "T":        # duck-typed mapping whose KEYS are 2-tuples (iterating it yields things that unpack as pairs)
+        d = {(k, v): v for k, v in pairs}
+        return DuckMap(d), list(d.items())
+    if shape == "C":        # duck-typed mapping whose keys are 2-character strings
+        d = {"%s%s" % (str(show_atom(k))[-1], str(show_atom(v))[-1]): v for k, v in pairs}
+        return DuckMap(d), list(d.items())
+    if shape == "P":        # iterable of pairs that also has an unrelated attribute named like a dict method
+        class Pairs(list):
+            values = None
+        return Pairs(pairs), list(pairs)
+    raise AssertionError(shape)
+
+
+SHAPES = "DKSTCP"
+SHAPED_OPS = {"u" + c: ("update", c) for c in SHAPES}
+SHAPED_OPS.update({"i" + c: ("ior", c) for c in SHAPES})
 
 
 def apply_op(d, op):
@@ -216,6 +295,14 @@ def apply_op(d, op):
     elif k == "iom":
         r = operator.ior(d, dict(op[1]))
         return Self if r is d else r
+    elif k in SHAPED_OPS:
+        how, shape = SHAPED_OPS[k]
+        arg, _ = shaped(shape, op[1])
+        if how == "update":
+            d.update(arg)
+        else:
+            r = operator.ior(d, arg)
+            return Self if r is d else r
     elif k == "sd":
         return ("v", d.setdefault(op[1], op[2]))
     elif k == "sd1":
@@ -417,8 +504,10 @@ def malformed_history(rng):
             ops.append("si %s %s" % (a(), a()))
         elif r < 0.3:
             ops.append("di %s" % a())
-        elif r < 0.5:
+        elif r < 0.4:
             ops.append("%s %s" % (rng.choice(["up", "ug", "io"]), plist()))
+        elif r < 0.5:       # the same arguments in the other shapes the builtin dict accepts (see `shaped`)
+            ops.append("%s%s %s" % (rng.choice("ui"), rng.choice(SHAPES), plist().replace("!3", "i3:i3").replace("!0", "s0:i1")))
         elif r < 0.65:
             ops.append("sd %s %s" % (a(), a()))
         elif r < 0.72:
@@ -432,4 +521,5 @@ def malformed_history(rng):
     kv = rng.choice(["id", "id", "toint", "tostr", "intonly"])
     vv = rng.choice(["id", "tostr"])
     init = rng.choice(["[]", "[i1:i2]", "[i1:i2,i2:i3]", "[s1:i2,i0:i0]"])
-    return "#td|%s|%s|%s|%s|%s" % (kv, vv, rng.choice(["r", "ro", "or"]), init, ";".join(ops))
+    kind = "td" + rng.choice(SHAPES) if rng.random() < 0.25 else "td"
+    return "#%s|%s|%s|%s|%s|%s" % (kind, kv, vv, rng.choice(["r", "ro", "or"]), init, ";".join(ops))
